@@ -1,0 +1,43 @@
+//go:build verif
+// +build verif
+
+package parse
+
+import "strings"
+
+// This file is only compiled with the "verif" build tag. It exposes the
+// tokeniser and a few event points to an external verification harness and
+// changes no behaviour.
+
+// A VerifToken is a token as emitted by the tokeniser.
+type VerifToken struct {
+	Type   string
+	Value  string
+	Line   int
+	Offset int
+}
+
+// VerifLex runs the tokeniser on its own (without a parser) and returns every
+// token it emits, up to and including EOF or ERROR.
+func VerifLex(src string) []VerifToken {
+	l := newLexer(strings.NewReader(src))
+	go l.tokenize()
+	var out []VerifToken
+	for {
+		tok := l.nextToken()
+		out = append(out, VerifToken{tok.tokenType.String(), tok.value, tok.Line, tok.Offset})
+		if tok.tokenType == tokenEOF || tok.tokenType == tokenError {
+			return out
+		}
+	}
+}
+
+// VerifHook, when set, receives the events "lex.start", "lex.sent",
+// "lex.exit" (with the lexer as id) and "parse.ret" (with the tree's lexer).
+var VerifHook func(event string, id interface{}, detail string)
+
+func verifEvent(event string, id interface{}, detail string) {
+	if h := VerifHook; h != nil {
+		h(event, id, detail)
+	}
+}
